@@ -1,10 +1,15 @@
 """Kernels of glyph reordering / em rescaling (C17) and merging (C18), explored by PYVC for
 every ordering of small lists (glyph ids symbolic) - bounded in shape."""
 from fractions import Fraction
+from types import SimpleNamespace
 
 from pyvc.core import Contract, contract, prop, internal
 from pyvc.models import std, round_tools
-from pyvc.spec import And, Or, Not, Implies, Ite, eq, Abs
+from pyvc.spec import And, Or, Not, Implies, Ite, eq, Abs, floor
+
+
+def _ot_round(x):
+    return floor(x + Fraction(1, 2))
 
 
 @contract
@@ -88,3 +93,87 @@ class MergeUtil(Contract):
     ensures = [prop("combinators", lambda a, old, r: And(
         r[0] * len(a.lst) <= sum(a.lst), sum(a.lst) < (r[0] + 1) * len(a.lst),
         eq(r[1], a.lst[0]), len(r[2]) == len(a.lst), *[eq(x, y) for x, y in zip(r[2], a.lst)]))]
+
+
+@contract
+class CffScaleArguments(Contract):
+    """scaleUpem._cff_scale on charstring-command argument lists (as programToCommands produces
+    them: numbers, hintmask bytes, blend lists [v1..vn, d11.., numBlends]): every number - default
+    values and deltas alike - is replaced by round(value * factor), the trailing numBlends of a
+    blend list and mask bytes are left alone, the list is modified in place and keeps its shape."""
+    module = "fontTools.ttLib.scaleUpem"
+    qualname = "_cff_scale"
+    props = ("C17",)
+    shadow_mode = "real"
+    level = "PF"
+    assumptions = ("A-REAL",)
+    SHAPES = {
+        "plain": ["n", "n", "n"],
+        "one-blend": ["n", ["n", "n", "n", "n", 2]],
+        "two-blends": [["n", "n", 1], ["n", "n", "n", "n", "n", "n", 3], "n"],
+        "mask": [b"\xf0"],
+        "empty": [],
+    }
+    variants = tuple(SHAPES)
+
+    def args(self, S, variant):
+        k = 0
+
+        def build(shape):
+            nonlocal k
+            out = []
+            for x in shape:
+                if x == "n":
+                    out.append(S.real("v%d" % k))
+                    k += 1
+                elif isinstance(x, list):
+                    out.append(build(x))
+                else:
+                    out.append(x)
+            return out
+        args = build(self.SHAPES[variant])
+        factor = S.real("factor")
+        visitor = SimpleNamespace(scale=lambda v: _ot_round(v * factor))
+        return dict(visitor=visitor, args=args, _factor=factor, _shape=self.SHAPES[variant])
+
+    @staticmethod
+    def _post(a, old):
+        def walk(new, was, shape):
+            if len(new) != len(shape):
+                return [False]
+            cs = []
+            for n, w, s in zip(new, was, shape):
+                if s == "n":
+                    cs.append(eq(n, _ot_round(w * a._factor)))
+                elif isinstance(s, list):
+                    if not isinstance(n, list):
+                        return [False]
+                    cs += walk(n, w, s)
+                else:
+                    cs.append(n == s)
+            return cs
+        return And(*walk(a.args, old.args, a._shape))
+
+    ensures = [prop("every-number-scaled-counts-and-masks-kept", lambda a, old, r: CffScaleArguments._post(a, old))]
+
+
+@contract
+class CffScaleDictValue(Contract):
+    """scaleUpem._cff_scale_dict_value on Private DICT values: plain lists, blended scalars
+    [default, d1..dn] and arrays of those - EVERY entry is scaled (there is no blend count in DICT
+    values)."""
+    module = "fontTools.ttLib.scaleUpem"
+    qualname = "_cff_scale_dict_value"
+    props = ("C17",)
+    shadow_mode = "real"
+    level = "PF"
+    assumptions = ("A-REAL",)
+    SHAPES = {"plain-array": ["n", "n", "n", "n"], "blended-scalar": ["n", "n", "n"], "blended-array": [["n", "n", "n"], ["n", "n", "n"]], "empty": []}
+    variants = tuple(SHAPES)
+    args = CffScaleArguments.args
+
+    def call(self, f, a):
+        return f(a.visitor, a.args)
+
+    ensures = [prop("every-entry-scaled", lambda a, old, r: CffScaleArguments._post(
+        SimpleNamespace(args=a.args, _factor=a._factor, _shape=a._shape), SimpleNamespace(args=old.args)))]
